@@ -6,14 +6,16 @@
 (* return and how the control state may move; this module says HOW the code  *)
 (* gets there, one sub-step at a time, and carries the concealment           *)
 (* bookkeeping underneath:                                                   *)
-(*   CELT  loss_duration, skip_plc           (celt/celt_decoder.c)           *)
+(*   CELT  loss_duration, skip_plc, postfilter_period (celt/celt_decoder.c)  *)
 (*   SILK  lossCnt, first_frame_after_reset, prevSignalType, sPLC.last_frame_ *)
 (*         lost, fs_kHz per channel; nFramesDecoded, nFramesPerPacket,        *)
 (*         nb_subfr, nChannelsInternal, prev_decode_only_middle               *)
 (*                                            (silk/dec_API.c, decode_frame.c,*)
 (*                                             PLC.c, decoder_set_fs.c)       *)
-(* and a ghost count of how often the decoder gain multiplies each piece of   *)
-(* output (finding F12 was a second application on the transition audio).     *)
+(* whether the soft clipper's memory is live (softclip_mem, only touched by    *)
+(* a normal decode), and a ghost count of how often the decoder gain           *)
+(* multiplies each piece of output (finding F12 was a second application on    *)
+(* the transition audio).                                                     *)
 (*                                                                         *)
 (* The model is a small-step machine.  A configuration m holds the decoder    *)
 (* state m.s, the arguments of the call in progress, the locals of           *)
